@@ -43,7 +43,7 @@ Print Assumptions Arms_bridge_life.
 Theorem Arms_life_states_well_formed :
   forall c, lwf (linit c) /\
   forall tbl s e r, lwf s -> lstep tbl c s e = Ok r -> lwf (fst r).
-Proof. intros c. split; [exact (lwf_init c)|]. intros tbl s e r. exact (lstep_wf tbl c s e r). Qed.
+Proof. exact life_states_well_formed. Qed.
 Print Assumptions Arms_life_states_well_formed.
 
 (* terminate_child before its loop is [enter_terminate], for a request and for a slow timeout *)
@@ -54,7 +54,7 @@ Theorem Arms_bridge_terminate_entry :
                      (fst r, map sout_of (snd r)))) /\
     entry_model cfg TTimeout (run_entry arm_table cfg s TTimeout None) =
     Some (let r := enter_terminate cfg s TTimeout (timeout_method cfg) in (fst r, map sout_of (snd r))).
-Proof. intros cfg s. split; [exact (bridge_term_entry_signal cfg s)|exact (bridge_term_entry_timeout cfg s)]. Qed.
+Proof. exact bridge_term_entry. Qed.
 Print Assumptions Arms_bridge_terminate_entry.
 
 (* non-vacuity: an arm the translator could not read, and a kill addressed to the leader only, have
